@@ -763,6 +763,9 @@ func genC12(g *Gen) error {
 	if err := genC12Wire(g); err != nil {
 		return err
 	}
+	if err := genC12Rewrite(g); err != nil {
+		return err
+	}
 	g.Footer()
 	return nil
 }
